@@ -366,6 +366,23 @@ int main(int argc, char **argv)
 			}
 		}
 	}
+	/* F. answers whose question name is nothing but a compression pointer to outside the datagram (the name reader
+	   writes nothing): the first character used for matching replies must not come from an earlier decode */
+	for (r = 0; r < 32; r++) {
+		size_t e = 12;
+		int off = (r & 1) ? 0x3FFF : 40 + r;
+		if (r % nsh != shard % nsh) continue;
+		kindname = "answer-question-name-pointer-first";
+		memset(m, 0, 12); m[0] = 0x12; m[1] = 0x34; m[2] = 0x84; m[5] = 1; m[7] = (r & 2) ? 1 : 0;
+		m[e++] = 0xC0 | ((off >> 8) & 0x3F); m[e++] = off & 0xFF;
+		m[e++] = 0; m[e++] = (r & 4) ? 16 : 10; m[e++] = 0; m[e++] = 1;
+		if (r & 2) {
+			m[e++] = 0xC0; m[e++] = 0x0C; m[e++] = 0; m[e++] = (r & 4) ? 16 : 10; m[e++] = 0; m[e++] = 1;
+			m[e++] = 0; m[e++] = 0; m[e++] = 0; m[e++] = 0; m[e++] = 0; m[e++] = 5;
+			m[e++] = 4; m[e++] = 't'; m[e++] = 'a'; m[e++] = 'b'; m[e++] = 'c';
+		}
+		check(QR_ANSWER, m, e, prev, prevlen, 4096);
+	}
 	DRV_E(evals * NRES);
 	DRV_X("datagrams", evals);
 	DRV_X("datagrams_with_differing_decodes", differing);
